@@ -474,6 +474,22 @@ func judgeBody(body string, isBatch bool, elems []elem, reply string, ranDelta i
 	}
 }
 
+// normID: a key under which a request id and its echo compare equal iff they have the same JSON type and value.
+func normID(raw string) string {
+	raw = strings.TrimSpace(raw)
+	if strings.HasPrefix(raw, `"`) {
+		var s string
+		if json.Unmarshal([]byte(raw), &s) == nil {
+			return "s:" + s
+		}
+	}
+	var f float64
+	if raw != "" && strings.ContainsAny(raw[:1], "-0123456789") && json.Unmarshal([]byte(raw), &f) == nil {
+		return fmt.Sprintf("n:%v", f)
+	}
+	return "x:" + raw
+}
+
 func pad(rng *rand.Rand) string {
 	return []string{"", "", " ", "\n", "\t \r\n"}[rng.Intn(5)]
 }
@@ -654,6 +670,7 @@ func (c09) ws(sc core.Scenario, r *core.R) {
 		n int
 	}
 	wants := map[string]*want{}
+	usedIDs := map[string]bool{}
 	n := sc.I("n")
 	sent := 0
 	for i := 0; i < n; i++ {
@@ -662,19 +679,29 @@ func (c09) ws(sc core.Scenario, r *core.R) {
 			continue // on ws a frame without a method name is a response frame, not a request
 		}
 		if e.IDKind == "number" || e.IDKind == "string" {
-			// unique ids so responses can be attributed
-			nid := fmt.Sprintf(`"u%d"`, i)
-			if i%2 == 0 {
-				nid = fmt.Sprint(1000 + i)
+			// ids must be unique on the connection so that responses can be attributed: the first use of a
+			// pool id (0, "", 1.5, 1e2, ...) is kept as it is, later ones are replaced
+			normal := e.IDRaw
+			if e.IDKind == "number" {
+				var f float64
+				json.Unmarshal([]byte(e.IDRaw), &f)
+				normal = fmt.Sprint(f)
 			}
-			e.Raw = strings.Replace(e.Raw, `"id":`+e.IDRaw, `"id":`+nid, 1)
-			e.IDRaw = nid
-			if i%2 == 0 {
-				e.IDKind = "number"
-			} else {
-				e.IDKind = "string"
+			if usedIDs[e.IDKind+normal] {
+				nid := fmt.Sprintf(`"u%d"`, i)
+				kind := "string"
+				if i%2 == 0 {
+					nid, kind = fmt.Sprint(1000+i), "number"
+				}
+				e.Raw = strings.Replace(e.Raw, `"id":`+e.IDRaw, `"id":`+nid, 1)
+				e.IDRaw, e.IDKind = nid, kind
+				normal = nid
+				if kind == "number" {
+					normal = fmt.Sprint(float64(1000 + i))
+				}
 			}
-			wants[nid] = &want{e: e}
+			usedIDs[e.IDKind+normal] = true
+			wants[normID(e.IDRaw)] = &want{e: e}
 		}
 		if err := conn.WriteMessage(websocket.TextMessage, []byte(e.Raw)); err != nil {
 			r.Inconclusive("write: %v", err)
@@ -726,15 +753,7 @@ func (c09) ws(sc core.Scenario, r *core.R) {
 			sentinels++
 			continue
 		}
-		w, ok := wants[o.id]
-		if !ok {
-			// numeric ids may be re-spelled
-			for k, cand := range wants {
-				if cand.e.IDKind == "number" && idMatches(k, "number", o.id) {
-					w, ok = cand, true
-				}
-			}
-		}
+		w, ok := wants[normID(o.id)]
 		if !ok {
 			if o.id == "null" && o.hasErr {
 				extra++ // answer to a failing notification: allowed latitude
